@@ -147,12 +147,47 @@ def placeholder_tables(ck):
     ck.require(len(phv) >= 1, "parsePattern: placeholder local not found")
     pdecl = phv[0]["decl"]
     exact, prefixes = set(), set()
+
+    def is_ph(x):
+        # the placeholder text itself, or a parameter of a spliced helper that was passed it
+        return is_ref_to(x, pdecl) or is_ref_to(deref_local(pp, x), pdecl)
+
+    def table_names(y):
+        """names of a constant lookup table when y is `<loop variable over the table>.name`"""
+        for m_ in walk(y):
+            if m_.get("k") == "member" and m_.get("dk") == "field":
+                b_ = skip_copies(m_.get("base"))
+                if b_.get("k") == "ref":
+                    for lp in enclosing_loops(pp, m_):
+                        if lp.get("k") == "rangefor" and lp.get("var", {}).get("decl") == b_.get("decl"):
+                            rng = skip_copies(lp.get("range"))
+                            gv = F.globals.get(rng.get("decl")) if rng.get("k") == "ref" else None
+                            init = gv.get("init") if gv else None
+                            if init is None and rng.get("k") == "ref":
+                                _, lv_ = local_var(pp, rng.get("decl"))
+                                init = lv_.get("init") if lv_ else None
+                            if isinstance(init, dict):
+                                rows = skip_copies(init).get("els") or []
+                                names = []
+                                for r_ in rows:
+                                    r_ = skip_copies(r_)
+                                    cells = r_.get("els") or r_.get("args") or []
+                                    strs = [const_str(c_) for c_ in cells if const_str(c_) is not None]
+                                    if len(strs) == 1:
+                                        names.append(strs[0])
+                                if names and len(names) == len(rows):
+                                    return names
+        return None
     for n in pp.calls():
         if n.get("op") == "==" and len(n.get("args", [])) == 2:
             a, b = n["args"]
             for x, y in ((a, b), (b, a)):
-                if is_ref_to(x, pdecl) and const_str(y) is not None:
+                if is_ph(x) and const_str(y) is not None:
                     exact.add(const_str(y))
+                elif is_ph(x):
+                    tn = table_names(y)
+                    if tn:
+                        exact.update(tn)
         if is_call(n, "QString::startsWith") and is_ref_to(skip_copies(n).get("obj"), pdecl) and n.get("args") and const_str(n["args"][0]) is not None:
             prefixes.add(const_str(n["args"][0]))
     code_basic = {e for e in exact if e != "endif"} | {p.strip() for p in prefixes if p.strip() and not p.startswith("if-")}
